@@ -12,6 +12,7 @@ from .values import (Val, VI, VB, VS, VNone, VTok, VOpt, VTuple, VSeq, VList, VO
 from .spec import Ctx
 from .exprs import mangle
 from .loader import PySet, FuncInfo
+from .calls import to_py
 
 
 class StmtMixin:
@@ -382,6 +383,16 @@ class StmtMixin:
                 outs.append(o)
                 continue
             v = o[2]
+            spec, _ = self.loop_spec(s)
+            if spec is not None and v.ty in ('list', 'tuple') and v.a['items'] and \
+                    all(x.ty == 'str' for x in v.a['items']):
+                # a loop over a constant list of strings that has an invariant in the sidecar is cut, not unrolled
+                from z3 import Concat as _C, Unit as _U
+                zs = [_U(x.z) for x in v.a['items']]
+                v = VSeq(_C(*zs) if len(zs) > 1 else zs[0], 'str')
+                o[1].ghost['_items'] = v
+                lens = [len(to_py(x)) for x in o[2].a['items']]
+                v.a['lenbounds'] = (min(lens), max(lens))
             if v.ty in ('list', 'tuple'):
                 outs += self._unroll(s, v.a['items'], o[1], enum)
             elif v.ty == 'const':
@@ -442,7 +453,11 @@ class StmtMixin:
                 exits.append(f)
             if t is not None:
                 self.touch(t, kv.z)
-                steps.append((t, elem_val(v.z[kv.z], v.a['elem'])))
+                item = elem_val(v.z[kv.z], v.a['elem'])
+                if v.a.get('lenbounds'):       # summary of the constant table the item is drawn from
+                    lo_, hi_ = v.a['lenbounds']
+                    t.fact(And(Length(item.z) >= lo_, Length(item.z) <= hi_))
+                steps.append((t, item))
             if v0 is None:
                 v0 = Length(v.z) - kv.z
                 spec_dec = None
